@@ -95,3 +95,26 @@ def run(case, ctx):
     return {"nontrivial": overlap, "fails": fails,
             "shape": (len(seqs), len(nonempty), min(fused, 3), abut, case["into_empty"]),
             "observed": {"inputs": [len(p["notes"]) for p in pre], "merged": len(got["notes"]), "dur": got["dur"]}}
+
+
+def _corpus_body(rng, k):
+    from vmon import corpus
+    from scoda.sequences.sequence import Sequence
+    n = rng.randint(2, 3)
+    ws = []
+    desc = {"windows": []}
+    for _ in range(n):
+        d, w = corpus.window(rng, min_len=48, max_len=300)
+        if rng.random() < 0.5:
+            w.set_channel(rng.randrange(0, 3))
+        ws.append(w)
+        desc["windows"].append(d)
+    desc["file"] = desc["windows"][0]["file"]
+    m = Sequence()
+    m.merge(ws)
+    return desc, sum(1 for w in ws if obs(w)["notes"]) >= 2
+
+
+def phases(tier):
+    from vmon import corpus
+    return [("corpus", corpus.phase(200, 10000, _corpus_body))]
